@@ -671,5 +671,39 @@ func c10(r *mon.Run) {
 			}
 			t.NontrivialDistinct(1)
 		}}
-	r.Exec(exh, by, many, rnd, sizedWorkload(r, "sized-arrays-ill-typed", true), nj, erw, oddw, inctx, latew, nearw, afterw)
+	// every argument of every call template replaced by a member of another kind that reaches the function through another
+	// construct (parenthesis, pipe, multi-select, not_null, ||, projection, slice, map, to_array ...): the check sees what the
+	// construct yields, whatever the construct is
+	wbase := c06BaseDoc()
+	wcalls := c06Calls(false, wbase)
+	wprods := argProducers()
+	wfields := []string{"s", "n", "an", "as", "o", "z", "b", "am", "ao"}
+	type wcase struct{ call, arg, fld, prod int }
+	var wcs []wcase
+	for ci, c := range wcalls {
+		for ai, a := range c.Items {
+			if a.K == gen.KExpRef {
+				continue
+			}
+			for fi := range wfields {
+				for pi := range wprods {
+					if (ci+ai+fi+pi)%2 == 0 || r.Tier == "thorough" {
+						wcs = append(wcs, wcase{ci, ai, fi, pi})
+					}
+				}
+			}
+		}
+	}
+	wprodw := mon.Workload{Name: "ill-typed-arguments-produced-by-other-constructs", N: len(wcs), Batch: 2000,
+		Do: func(i int, t *mon.Tally) {
+			c := wcs[i]
+			tree := gen.Clone(wcalls[c.call])
+			tree.Items[c.arg] = wprods[c.prod](gen.Field(wfields[c.fld]))
+			cx := &caseCtx{r, t, "ill-typed-arguments-produced-by-other-constructs", i}
+			res, _, _ := cx.runOne(tree, gen.Spell(tree), wbase)
+			if isErr(res) {
+				t.NontrivialDistinct(1)
+			}
+		}}
+	r.Exec(exh, by, many, rnd, sizedWorkload(r, "sized-arrays-ill-typed", true), nj, erw, oddw, inctx, latew, nearw, afterw, wprodw)
 }
